@@ -51,7 +51,9 @@ KINDS = [('p', 'general'), ('p', 'axis+'), ('px', 'any'), ('s', 'any'),
 PAIR_KINDS = [('tz', 'circular'), ('ty', 'elliptic'), ('tx', 'circular'),
               ('sq', 'ellipsoid'), ('k/y', 'plus'), ('box', 'rotated'),
               ('rcc', 'rotated'), ('tz', 'elliptic')]
-SPELLINGS = ['12', '13', 'star', '6-rows', '6-cols', '5']
+SPELLINGS = ['12', '13', 'star', '6-rows', '6-cols', '5', '6-rows-13',
+             '6-rows-23', '6-cols-13', '6-cols-23', '5-r2c3', '5-r3c1',
+             '5-r1c2', '13-jumps', '6-rows-12', '6-cols-12']
 
 _PER = {'quick': 5, 'thorough': 120}
 
@@ -86,7 +88,7 @@ def build(case):
     params = macrobody(rng, kind, fam) if macro else elementary(rng, kind, fam)
     motion = motion_of_class(rng, rot)
     spelling = rng.choice(SPELLINGS)
-    if spelling == '5' and rot != 'generic':
+    if spelling.startswith('5') and rot != 'generic':
         spelling = '12'
     if rot in ('identity', 'translation') and rng.random() < 0.3:
         spelling = '3'
